@@ -278,7 +278,10 @@ func (this *LedgerStoreImp) recoverStore() error {
 	if err != nil {
 		return fmt.Errorf("stateStore.GetCurrentBlock error %s", err)
 	}
-	for i := stateHeight; i < blockHeight; i++ {
+	// stateHeight is the last block already applied to the state store and
+	// blockHeight the last block committed to the block store, so the blocks
+	// that still have to be applied are (stateHeight, blockHeight].
+	for i := stateHeight + 1; i <= blockHeight; i++ {
 		blockHash, err := this.blockStore.GetBlockHash(i)
 		if err != nil {
 			return fmt.Errorf("blockStore.GetBlockHash height:%d error:%s", i, err)
